@@ -90,6 +90,24 @@ def run(rng, tier, model_ok):
     for i, q in enumerate(sub):
         if fwd[i].get("results") != rev[i].get("results") or (i < len(fresh) and fresh[i].get("results") != fwd[i].get("results")):
             failures.append({"input": q, "why": "the answer depends on which queries ran before it on the same database"})
+    # several expressions in one query: what the successful ones used is reported whatever happens to the others
+    multi = []
+    facts2 = [x for x in phrases if x not in ("nosuchfact", "no such fact anywhere")]
+    for _ in range(40 if tier == "quick" else 600):
+        a, b = rng.choice(facts2), rng.choice(facts2)
+        bad = rng.choice(["(%s / 0)" % b, "(%s + 1 s + 1 m)" % b, "(nosuchfact * %s)" % b, "(%s * nosuchfact)" % b, "(round(%s, 1, 2, 3))" % b])
+        multi.append(("(%s) %s" % (a, bad), [a]))
+        multi.append(("%s (%s)" % (bad, a), [a]))
+        multi.append(("(%s) (%s)" % (a, b), [a, b]))
+    mrep = vlib.run_impl(["Q %s d" % vlib.hx(q) for q, _ in multi])
+    for (q, must), r in zip(multi, mrep):
+        res = r.get("results") or []
+        got = [d["phrase"] for d in r.get("desc", [])]
+        if len(res) == 2 and any(m not in got for m in must) and all("ok" in x for x, m in zip(res if q.startswith("(" + must[0]) else res[::-1], must)):
+            failures.append({"input": q, "why": "the facts used by the successful expression(s) %s are not all reported: %s" % (must, got)})
+    stats["multi_expression_queries"] = len(multi)
+    _, _, mcases = qcorr.build_cases([q for q, _ in multi], describe=True)
+    cases_on = cases_on + mcases
     # spellings of one phrase that differ only in case, among them the words the index's query syntax treats as operators when
     # capitalised: on one database in both orders, and each on a database of its own
     var = []
